@@ -22,13 +22,15 @@ Vocabulary (anything else raises Untranslatable -> the check reports the obligat
                | a && b | a || b (short-circuit) | !a
                | x = e | x += e | x -= e | x &= e | x |= e | x ^= e | ++x | x++ | --x | x--      (x an lvalue name)
                | static_cast<T|U|alias>(e) | std::exchange(x, e) | std::memcmp(&a, &b, sizeof(T)) == 0
+               | std::memcpy(&x, &e, sizeof(T))   (assignment of the object representation)
                | f(args) for a member function f of the same class hierarchy (reference parameters written back)
                | Impl::f(args), ++static_cast<Impl&>(*this), static_cast<Impl&>(*this)++ (and --)  [wrapper]
                | ShouldFailAtomicWeak()                                                             [wrapper]
   memory-order expressions: parameters, std::memory_order_xxx, ==, ?:, calls of translated constexpr helpers
   types        T, T&, U*, bool, void, int (postfix dummy), std::ptrdiff_t, std::memory_order,
                class-level aliases  using X = <type expression over std::conditional_t / std::make_unsigned[_t] /
-               std::common_type / std::is_integral_v / typename ..::type>
+               std::common_type<T> / std::common_type<T, long double> (a wider floating intermediate) /
+               std::is_integral_v / typename ..::type>
 Not translated (named explicitly, reported in the header of the generated file): wait / notify_one / notify_all /
 is_lock_free (no effect on the value; C17/C18 are about blocking), constructors other than the value constructor.
 """
@@ -924,6 +926,11 @@ class Emit:
                 old = self.fresh("old")
                 return self.expr(args[1], ind, lambda a: "%slet %s := %s in\n%slet %s := cast (fst %s) %s in\n%s" % (
                     pad, old, lv, pad, lv, lv, a, k(old)))
+            if fn == "std::memcpy":
+                # std::memcpy(&x, &y, sizeof(T)): assignment of the whole object representation
+                if not (len(args) == 3 and args[0][0] == "addr" and args[1][0] == "addr" and args[2][0] == "sizeof"):
+                    raise Untranslatable("%s: memcpy form not in the vocabulary" % self.where)
+                return self.expr(("assign", "=", args[0][1], args[1][1]), ind, k)
             if fn == "ShouldFailAtomicWeak":
                 if not self.wrapper or args:
                     raise Untranslatable("%s: ShouldFailAtomicWeak outside the wrapper" % self.where)
@@ -1039,7 +1046,7 @@ class Emit:
                     if fn.startswith("Impl::"):
                         o = opn_of(name, len(mos), False, self.where)
                         out.append((o, [self.mo_expr(a) for a in mos]))
-                    elif fn not in ("ShouldFailAtomicWeak", "std::exchange", "std::memcmp") and "::" not in fn:
+                    elif fn not in ("ShouldFailAtomicWeak", "std::exchange", "std::memcmp", "std::memcpy") and "::" not in fn:
                         vals = [a for a in args if not self.is_mo_expr(a)]
                         callee = self.world.lookup(self.m.cls, fn, self.m.volatile, len(vals), None)
                         if callee is not None:
@@ -1079,7 +1086,17 @@ def type_expr(toks, where):
         m = re.match(r"^std::make_unsigned<(.*)>::type$", x)
         if m:
             return "unsigned_of (%s)" % ty(m.group(1))
-        m = re.match(r"^std::(?:common_type|type_identity|enable_if<true,)<?(.*)>::type$", x)
+        m = re.match(r"^std::common_type<(.*)>::type$", x) or re.match(r"^std::common_type_t<(.*)>$", x)
+        if m:
+            args = split_str(m.group(1))
+            if len(args) == 1:
+                return ty(args[0])
+            if len(args) == 2 and sorted(args) == ["T", "longdouble"]:
+                # the common type of a floating T and long double: a wider floating intermediate (integral T does not
+                # reach here in the sources: the alias is selected for floating T only; widen_flt is the identity there)
+                return "widen_flt (T)"
+            raise Untranslatable("%s: std::common_type of %s is not in the vocabulary" % (where, ", ".join(args)))
+        m = re.match(r"^std::(?:type_identity|enable_if<true,)<?(.*)>::type$", x)
         if m:
             return ty(m.group(1).rstrip(">"))
         m = re.match(r"^std::conditional_t<(.*)>(::type)?$", x)
